@@ -401,6 +401,9 @@ class PhysicalUnit(object):
         PhysicalUnit
             new PhysicalUnit instance representing the other/self
         """
+        if self._offset != 0:
+            raise TypeError(f"Can't divide by unit '{self.name()}' because it "
+                            "has a non-zero offset.")
         return PhysicalUnit({str(other): 1} - self._names,
                             float(other) / self._factor,
                             [-x for x in self._powers])
